@@ -1,5 +1,5 @@
 """C03 - a value that is still reachable is never reclaimed."""
-import vlib, runcorr, gccheck
+import vlib, runcorr, gccheck, progcheck
 
 COQ_TARGETS = ["props/C03.vo", "corr/CorrGC.vo", "corr/CorrSem.vo"]
 RULE = ("(a) collector driven directly (allocate float/string/array, link x into array y - sharing and cycles -, collect "
@@ -25,10 +25,12 @@ def run(ctx, log):
         ctx.notes.append("thorough: all sequences of 2 non-allocating operations over two 4-object universes enumerated completely")
     else:
         prefix = [(k, []) for k in ["A", "A", "F"]]
-        seqs += list(gccheck.enum_sequences(prefix, 2, 3))
+        seqs += list(gccheck.enum_sequences(prefix, 3, 3))
+        seqs += list(gccheck.enum_sequences([(k, []) for k in ["A", "A", "A"]], 3, 3))
     gccheck.run_sequences(ctx, seqs, log, "C03")
-    wv = list(gccheck.ALLOC_CORPUS_WITH_VALUE)
-    progs = list(gccheck.ALLOC_CORPUS) + gccheck.gen_alloc_programs(rng, 300 if ctx.quick else 6000, with_value_out=wv)
+    stress = progcheck.alloc_stress_family()
+    wv = list(gccheck.ALLOC_CORPUS_WITH_VALUE) + [True] * len(stress)
+    progs = list(gccheck.ALLOC_CORPUS) + stress + gccheck.gen_alloc_programs(rng, 300 if ctx.quick else 6000, with_value_out=wv)
     obs = runcorr.run_corr(ctx, progs, log, budget=50000, stages=("eval",), label="alloc-programs")
     ev = obs["eval"]
     ncoll = 0
